@@ -43,8 +43,10 @@ def _one(pid, a) -> int:
         from .api import program
         prog = program(os.path.join(a.repo, 'src'))
         mod.run(rep, prog, a.tier)
-        if a.tier == 'thorough' and hasattr(mod, 'thorough'):
-            mod.thorough(rep, prog)
+        if a.tier == 'thorough':
+            # both-ways self-test of the rules on in-memory variants of the CURRENT tree (never executed); failures are analysis errors
+            from .selftest import run_selftest
+            run_selftest(pid, os.path.join(a.repo, 'src'), rep)
     return run_guarded(pid, a.tier, body, a.repo, write=not a.no_write)
 
 
